@@ -95,6 +95,14 @@ def check_case(root, spec, pps, excl, cfg, delivery, how, out, armed):
                 if delivery == 'inline':
                     call_pats = ([call_pats] if isinstance(call_pats, str) else call_pats) + ['!' + e for e in etexts]
                     cfl |= G.NEGATE
+                elif delivery == 'empty-exclude':
+                    # an exclude= argument, even an empty one, switches inline negation off: the `!` texts are ordinary patterns
+                    call_pats = ([call_pats] if isinstance(call_pats, str) else call_pats) + ['!' + e for e in etexts]
+                    cfl |= G.NEGATE
+                    kw['exclude'] = [] if len(etexts) % 2 else ()
+                    singles = singles + [G.glob('!' + e, flags=fl, root_dir=root) for e in etexts]
+                    etexts = []
+                    case['exclude'] = []
                 elif delivery == 'inline-first':
                     # the exclusions stand before the first inclusion: the position of an exclusion in the list means nothing
                     call_pats = ['!' + e for e in etexts] + ([call_pats] if isinstance(call_pats, str) else call_pats)
@@ -154,7 +162,7 @@ def run_union(desc):
 
     @seed(desc['seed'])
     @util.hyp_settings(desc['n'], shrink=False)
-    @given(st.one_of(st.sampled_from(cat), T.st_tree(False)), st.data(), FC.st_cfg(CFG_KEYS), st.sampled_from(['exclude', 'inline', 'inline-first']),
+    @given(st.one_of(st.sampled_from(cat), T.st_tree(False)), st.data(), FC.st_cfg(CFG_KEYS), st.sampled_from(['exclude', 'inline', 'inline-first', 'empty-exclude']),
            st.sampled_from(['list', 'list', 'brace', 'split', 'pathlib']))
     def test(spec, data, cfg, delivery, how):
         names = sorted({os.path.basename(e[1]) for e in spec} | {'.', 'zz'})
